@@ -21,6 +21,10 @@ impl Kawa {
     pub uninterp spec fn spec_completed(&self) -> bool;    // nothing left in blocks / out (says nothing about the message end)
     #[verifier::external_body] pub fn is_terminated(&self) -> (r: bool) ensures r == self.spec_terminated() { unimplemented!() }
     #[verifier::external_body] pub fn is_completed(&self) -> (r: bool) ensures r == self.spec_completed() { unimplemented!() }
+    // the other phase predicates of kawa: none of them says that the message was parsed to its end
+    #[verifier::external_body] pub fn is_main_phase(&self) -> bool { unimplemented!() }
+    #[verifier::external_body] pub fn is_initial(&self) -> bool { unimplemented!() }
+    #[verifier::external_body] pub fn is_error(&self) -> bool { unimplemented!() }
 }
 pub struct Stream { pub state: StreamState, pub context: HttpContext, pub back: Kawa }
 pub struct Ready { pub bits: u16 }
